@@ -111,6 +111,22 @@ def execute(case):
                     rec["inheritable"][s.name] = None
             rec["filenos"] = dict((s.name, s.fileno()) for s in socks)
         k.spawn_observer = observer
+
+        def probe():
+            # run in a forked child right after circus' preexec function:
+            # what does the future worker see at the managed descriptors?
+            view = {}
+            for s in socks:
+                try:
+                    view[s.name] = os.fstat(s.fileno()).st_ino
+                except OSError:
+                    view[s.name] = None
+            try:
+                view["fd0"] = os.fstat(0).st_ino
+            except OSError:
+                view["fd0"] = None
+            return view
+        k.preexec_probe = probe
         h.start()
         plain = [s for s in socks if not s.so_reuseport]
         base = dict((s.name, _sockstate(s)) for s in plain)
@@ -172,6 +188,16 @@ def execute(case):
                                 '%s whose descriptor is %s' % (
                                     rec["owner"], rec["args"], arg, sname,
                                     want)))
+                        cv = rec.get("child_view")
+                        if isinstance(cv, dict) and sname in base and \
+                                cv.get(sname) != base[sname]["ino"]:
+                            viols.append(Violation(
+                                'C07:descriptor-lost-before-exec',
+                                'worker of %s: after the pre-exec step the '
+                                'child sees inode %r at fd %s, the daemon\'s '
+                                'socket %s is inode %r (child view %r)' % (
+                                    rec["owner"], cv.get(sname), want, sname,
+                                    base[sname]["ino"], cv)))
                         if not rec["inheritable"].get(sname):
                             viols.append(Violation(
                                 'C07:descriptor-not-inheritable',
